@@ -378,6 +378,14 @@ def scaled_tri_check(seed):
     else:
         k = rng.choice([rng.randint(-55, -38), rng.randint(32, 45), rng.randint(-30, 30)])
     arr = numpy.array(verts, dtype=numpy.float32) * numpy.float32(2.0 ** k)
+    dt = 'float32'
+    if not gen and rng.random() < 0.35:
+        # a source keeps the array it is given: whole-number coordinates arrive as integer arrays, numpy's default floats as float64
+        # (integer arrays only where the cross products and their squares stay far inside the integer type: overflow there is numpy's)
+        dt = rng.choice(['float64', 'int64', 'int32'])
+        if dt != 'float64':
+            k = rng.randint(0, 6) if dt == 'int64' else 0
+        arr = (numpy.array(verts, dtype=numpy.float64) * 2.0 ** k).astype(dt)
     doc = collada.Collada()
     geom = geometry.Geometry(doc, 'g', 'g', [source.FloatSource('pos', arr.reshape(-1), ('X', 'Y', 'Z'))])
     il = source.InputList()
@@ -389,7 +397,7 @@ def scaled_tri_check(seed):
     else:
         obj = ts.bind(numpy.identity(4, dtype=numpy.float32 if how == 'bind32' else numpy.float64), {})
     V, T = extract(obj)
-    where = 'coordinates scaled by 2^%d, %s' % (k, how)
+    where = 'coordinates scaled by 2^%d, %s%s' % (k, how, '' if dt == 'float32' else ', position array of type ' + dt)
     if gen:
         with warnings.catch_warnings():
             warnings.simplefilter('ignore')
@@ -469,6 +477,8 @@ def check_tri_normals(obj, V, tris, model=None):
         with warnings.catch_warnings():
             warnings.simplefilter('ignore')
             tri = obj[i]
+        if any(x != x for r in tri.normals for x in map(float, r)):
+            return ('trinormal', 'triangle %d: implicit normal is nan' % i), None
         rows = [fvec(r) for r in tri.normals]
         if len(rows) != 3 or rows[0] != rows[1] or rows[1] != rows[2]:
             return ('trinormal', 'triangle %d: implicit normals are not three equal rows: %s' % (i, tri.normals.tolist())), None
